@@ -268,6 +268,24 @@ def pdp_check_prepend(ex):
     return run
 
 
+def reset_numloc_src(ex):
+    """TSPEnv._reset: `num_loc = init_locs.shape[-2]` / `.size(-2)` (counted from the END: right for every batch
+    shape → true) vs. `.size(1)` / `.shape[1]` (counted from the front: right for flat batches only → false)"""
+    def run():
+        fn = _fn(ex, T, "TSPEnv._reset")
+        if fn is None:
+            return None
+        for n in ast.walk(fn):
+            if isinstance(n, ast.Assign) and len(n.targets) == 1 and ex.norm(n.targets[0]) == "num_loc":
+                v = ex.norm(n.value)
+                if v in ("init_locs.shape[-2]", "init_locs.size(-2)", "td['locs'].shape[-2]", "td['locs'].size(-2)"):
+                    return "true"
+                if v in ("init_locs.size(1)", "init_locs.shape[1]", "td['locs'].size(1)", "td['locs'].shape[1]"):
+                    return "false"
+        return None
+    return run
+
+
 def register(ex):
     # ---- done tests
     ex.probe("tspDoneCmp", "Cmp", ".eq", "tsp/env.py:TSPEnv._step  `torch.sum(available, dim=-1) == 0`",
@@ -332,3 +350,6 @@ def register(ex):
     # ---- ATSP: index order of the cost-matrix gather
     ex.probe("atspGatherSrcFirst", "Bool", "true", "atsp/env.py:ATSPEnv._get_reward  `distance_matrix[batch_idx, nodes_src, nodes_tgt]` (source index first)",
              atsp_gather_order(ex))
+    # ---- TSP reset: which dimension of `locs` is the number of cities
+    ex.probe("tspResetNumLocFromEnd", "Bool", "true", "tsp/env.py:TSPEnv._reset  `num_loc = init_locs.shape[-2]` (true) vs `init_locs.size(1)` (false)",
+             reset_numloc_src(ex))
